@@ -90,6 +90,11 @@ func vC18PauseRead(rc *runCtx) {
 			if tp.Bool("pr.whole", 150) {
 				k = 0
 			}
+			if reader == "windows" && k > len(line)-len(nl) {
+				// the Windows reader has the whole line at its '!': a cut behind it is no cut of the line (the reader
+				// would return at once and wait for the NEXT line through all the silences of this plan)
+				k = len(line) - len(nl)
+			}
 			verifsim.Sleep(quiet)
 			if k > 0 {
 				t.addReceivedData(append([]byte(nil), line[:k]...), false)
